@@ -31,7 +31,8 @@ package command
 //@   assigns c.cmd.Dir
 //@ func (c *CmdWrapper) Run
 //@   ensures runs() == old(runs()) + 1 && ranEnv() == c.cmd.Env && ranDir() == c.cmd.Dir
-//@   assigns runs(), ranEnv(), ranDir()
+//@   ensures lastRunFailed() <==> result != nil
+//@   assigns runs(), ranEnv(), ranDir(), lastRunFailed()
 //@ func BuildCommandShellArgContext
 //@   ensures result != nil && fresh(result) && result.cmd != nil && fresh(result.cmd)
 //@   assigns nothing
